@@ -22,16 +22,18 @@ class TheCheck(SeqCheck):
     module = "vector"
     harness = "vector"
     mode = "vector"
+    lib = "libqw.a"      # allocator traffic of the library is counted (allocs= / live= fields)
     rule = ("operation histories on qvector executed by the C library (ASan+UBSan+LSan build of the working tree) and by "
             "the Lean model; after every operation both print the API-level content (getat(i, newmem) for all i, size) and "
-            "the private state (num, max, objsize, options, initnum, live slots of the buffer); the oracle is an ideal "
+            "the private state (num, max, objsize, options, initnum, live slots of the buffer, the library's live block count) "
+            "and the number of allocation attempts of the call; the oracle is an ideal "
             "Python list of fixed-size elements evaluated on the implementation's transcript; distinct_nontrivial = "
             "distinct (operation, result kind, errno) classes")
     assumptions = ["hand model of qvector.c validated on the explored histories only",
                    "the copy primitive of remove_at is extracted from the source by translator/vecprims.py (regex) and trusted as a translator",
                    "sequential behaviour only (lock calls are the business of C13/C14)",
                    "theorems assume fewer than 2^31 elements and `int` indexes",
-                   "element arguments are objsize bytes long; allocation failure is not modelled here (C15)"]
+                   "element arguments are objsize bytes long; allocation failure is not exercised here (C15: Props/C15Seq.lean, checks/seqoverlay.py)"]
     exhaustive_note = True
 
     def regenerate(self):
